@@ -25,6 +25,8 @@ def main():
         import checks_a
         table = dict(checks.CHECKS)
         table.update(checks_a.CHECKS)
+        import checks_cf
+        table.update(checks_cf.CHECKS)
         table[prop](run)
     except Exception:
         run.proof_failures.append("check machinery failed: " + traceback.format_exc()[-1500:])
